@@ -14,6 +14,46 @@ HERE = os.path.dirname(os.path.abspath(__file__))
 VERIF = os.path.dirname(HERE)
 
 
+class Reach:
+    """Which functions and lines of the library under test this worker executed (sys.monitoring, every
+    location switched off after its first event, so the cost is one callback per function and line)."""
+
+    def __init__(self, repo):
+        self.prefix = os.path.join(repo, "anytree") + os.sep
+        self.funcs = set()
+        self.lines = {}
+        self.on = False
+        mon = getattr(sys, "monitoring", None)
+        if mon is None or os.environ.get("VERIF_NO_REACH"):
+            return
+        try:
+            mon.use_tool_id(mon.COVERAGE_ID, "vf-reach")
+        except ValueError:
+            return
+        ev = mon.events
+        mon.register_callback(mon.COVERAGE_ID, ev.PY_START, self.py_start)
+        mon.register_callback(mon.COVERAGE_ID, ev.LINE, self.line)
+        mon.set_events(mon.COVERAGE_ID, ev.PY_START | ev.LINE)
+        self.on = True
+
+    def py_start(self, code, offset):
+        fn = code.co_filename
+        if fn.startswith(self.prefix):
+            self.funcs.add("%s:%s:%d" % (fn[len(self.prefix):], code.co_qualname, code.co_firstlineno))
+        return sys.monitoring.DISABLE
+
+    def line(self, code, lineno):
+        fn = code.co_filename
+        if fn.startswith(self.prefix):
+            self.lines.setdefault(fn[len(self.prefix):], set()).add(lineno)
+        return sys.monitoring.DISABLE
+
+    def result(self):
+        if not self.on:
+            return None
+        return {"funcs": sorted(self.funcs), "lines": {k: sorted(v) for k, v in self.lines.items()}}
+
+
 def main(argv):
     import argparse
 
@@ -27,6 +67,7 @@ def main(argv):
     # the tree under test first, then the framework
     sys.path[:] = [repo, VERIF] + [p for p in sys.path if p not in ("", repo, VERIF, HERE)]
     faulthandler.enable()
+    reach = Reach(repo)
     res = {"prop": a.prop, "shard": spec.get("shard", 0), "crash": None}
     try:
         from vf.common import Ctx, lib
@@ -81,6 +122,7 @@ def main(argv):
                     array.array("Q", ctx.distinct).tofile(fh)
         except Exception:  # noqa: B902
             pass
+    res["reach"] = reach.result()
     with open(a.out, "w") as fh:
         json.dump(res, fh, default=repr)
     return 0
